@@ -109,3 +109,25 @@ func vAllDigits(d []byte) bool {
 	}
 	return r
 }
+
+// refHdrTypeB: branching variant of refHdrType (forks on the name bytes, so
+// the result is concrete in every state).
+func refHdrTypeB(name []byte) int {
+	for i := 0; i < len(refHdrNames); i++ {
+		n := refHdrNames[i].n
+		if len(n) != len(name) {
+			continue
+		}
+		eq := true
+		for k := 0; k < len(n); k++ {
+			if refLower(name[k]) != n[k] {
+				eq = false
+				break
+			}
+		}
+		if eq {
+			return int(refHdrNames[i].t)
+		}
+	}
+	return int(HdrOther)
+}
